@@ -5,7 +5,7 @@
 //
 //   H g bs opt   new history: JitAllocator(CreateParams{options=opt, block_size=bs, granularity=g, fill_pattern=0xA5C3A5C3})
 //                -> "H <is_initialized> <pool_count> <impl.granularity> <impl.block_size>"
-//   A size       alloc; consumes the next handle number h=0,1,2,...   -> "A ok <blk> <off> <len> <digest>" | "A <err>"
+//   A size       alloc; consumes the next handle number h=0,1,2,...   -> "A ok <blk> <off> <len> <digest> <block bytes> <pool>" | "A <err>"
 //   R h          release(span[h].rx())          -> "R skip" | "R <err> <blk> <digest>" | "R <err> <blk> deleted"
 //   S h n        shrink(span[h], n)             -> "S skip" | "S <err> <len_after> <blk> <digest>" | "S <err> <len_after> <blk> deleted"
 //   Q h d        query(rx_of_h + d), live or dead handle -> "Q skip" | "Q ok <blk> <off> <len>" | "Q <err>"
@@ -36,6 +36,8 @@
 
 #include "c09_monitor.h"
 
+#include <sys/resource.h>
+#include <unistd.h>
 #include <asmjit/core.h>
 #include <asmjit/core/jitallocator.cpp>   // file-static JitAllocatorPrivateImpl / JitAllocatorPool / JitAllocatorBlock
 
@@ -374,7 +376,7 @@ int main() {
 
     if (!H.active) { puts("BAD"); continue; }
 
-    bool known = (c == 'A' || c == 'R' || c == 'S' || c == 'Q' || c == 'F' || c == 'Z' || c == 'T' || c == 'W' || c == 'D' || c == 'X');
+    bool known = (c == 'A' || c == 'R' || c == 'S' || c == 'Q' || c == 'F' || c == 'Z' || c == 'T' || c == 'W' || c == 'D' || c == 'X' || c == 'V');
     if (!known) { puts("BAD"); continue; }
 
     H.op++;
@@ -412,10 +414,11 @@ int main() {
           h.blk = be ? be->info.serial : -1;
           if (be) {
             digest(be->ptr, dg, sizeof(dg), ' ');
-            printf("A ok %" PRId64 " %" PRId64 " %" PRIu64 " %s\n", h.blk, int64_t(uintptr_t(h.span.rx()) - be->info.rx_base), uint64_t(h.span.size()), dg);
+            printf("A ok %" PRId64 " %" PRId64 " %" PRIu64 " %s %" PRIu64 " %u\n", h.blk, int64_t(uintptr_t(h.span.rx()) - be->info.rx_base), uint64_t(h.span.size()), dg,
+                   uint64_t(be->info.bytes), be->info.pool);
           }
           else {
-            printf("A ok -1 0 %" PRIu64 " 0 0 0 0 0\n", uint64_t(h.span.size()));
+            printf("A ok -1 0 %" PRIu64 " 0 0 0 0 0 0 0\n", uint64_t(h.span.size()));
           }
           C09Monitor::Verdict v = M.on_alloc(hi, h.span.rx(), h.span.rw(), h.span.size(), size_t(size), H.g0, changed ? &H.table : nullptr);
           h.no_touch = v.no_touch;
@@ -559,6 +562,28 @@ int main() {
         break;
       }
 
+      // ---- V mb: limit the address space to (current virtual size + mb MiB); mb = 0 removes the limit. Used to make
+      //      VirtMem::alloc fail for a huge request (the allocator must report an error and stay consistent). ----------
+      case 'V': {
+        uint64_t mb;
+        if (!next_u64(p, mb) || !at_end(p)) { puts("BAD"); break; }
+        struct rlimit rl;
+        getrlimit(RLIMIT_AS, &rl);
+        if (mb == 0) rl.rlim_cur = rl.rlim_max;
+        else {
+          unsigned long vsz_pages = 0;
+          if (FILE* f = fopen("/proc/self/statm", "r")) { if (fscanf(f, "%lu", &vsz_pages) != 1) vsz_pages = 0; fclose(f); }
+          rlim_t want = rlim_t(vsz_pages) * rlim_t(sysconf(_SC_PAGESIZE)) + rlim_t(mb) * 1024u * 1024u;
+          rl.rlim_cur = (rl.rlim_max != RLIM_INFINITY && want > rl.rlim_max) ? rl.rlim_max : want;
+        }
+        int rc = setrlimit(RLIMIT_AS, &rl);
+        printf("V %d\n", rc == 0 ? 1 : 0);
+        M.tick();
+        do_stats(false);
+        flush_monitor();
+        break;
+      }
+
       // ---- W --------------------------------------------------------------------------------------------------------
       case 'W': {
         uint64_t hi;
@@ -579,6 +604,16 @@ int main() {
         for (const BlockEnt& e : H.blocks) {
           digest(e.ptr, dg, sizeof(dg), ':');
           printf(" %" PRId64 ":%u:%" PRIu64 ":%u:%s", e.info.serial, e.info.pool, uint64_t(e.info.bytes), e.ptr->area_size(), dg);
+        }
+        // pool->cursor of every pool as a block serial (-1 = nullptr, -2 = points to no block of the table)
+        printf(" |");
+        if (H.impl) {
+          for (size_t pi = 0; pi < H.impl->pool_count; pi++) {
+            const JitAllocatorBlock* cur = H.impl->pools[pi].cursor;
+            int64_t cs = cur ? -2 : -1;
+            for (const BlockEnt& e : H.blocks) if (e.ptr == cur) cs = e.info.serial;
+            printf(" %" PRId64, cs);
+          }
         }
         putchar('\n');
         M.tick();
